@@ -91,6 +91,16 @@ def run(chk: Check, tier: str):
         _run(chk, tier, T, work)
     finally:
         cleanup(work)
+    # the copies between the byte sequences of a frame as the instructions perform them (memory <- return data at an offset,
+    # memory <- code past its end, the output area of a call with short return data): Evm.tla's flat byte sequences are the reference
+    from harness import probes
+    from harness.e1corpus import run_items
+
+    from .c01 import judge
+
+    items = [it for it in probes.c01_probes() if it.key.startswith(("probe:returndatacopy-offset", "probe:codecopy-past-end", "probe:extcodecopy-no-code", "probe:short-re"))]
+    judge(chk, run_items(items, chk, witnesses=False))
+    chk.cov["instruction_level_copy_probes"] = len(items)
 
 
 def _run(chk: Check, tier: str, T: dict, work):
